@@ -122,6 +122,22 @@ func (m *Machine) PathString() string {
 	return s
 }
 
+// SymEqualities returns the real symbols fixed to constants by the path condition (e.g. after `if a == 0`).
+func (m *Machine) SymEqualities() map[string]sym.Expr {
+	out := map[string]sym.Expr{}
+	for _, c := range m.RC {
+		if c.Kind == sym.CRealEQ {
+			if n, v, ok := sym.SolveSym(c.E); ok {
+				out[n] = v
+			}
+		}
+	}
+	return out
+}
+
+// RealConds returns the non-integer part of the path condition.
+func (m *Machine) RealConds() []*sym.Cond { return m.RC }
+
 // PathConstraints returns base assumptions plus the integer path condition.
 func (m *Machine) PathConstraints() []sym.Constraint { return m.ctx() }
 
